@@ -100,6 +100,11 @@ def cases(tier, seed):
             for pinv in (False, True):
                 for order in ("given", "reversed"):
                     out.append(dict(what="whitening", data=dname, kind=kind, pinv=pinv, order=order, seed=seed))
+        # the same data far from the origin (offset large compared with the spread): means must be removed before products are formed
+        for big in (1.0e6, -3.0e6):
+            for kind in kinds[:4]:
+                out.append(dict(what="whitening", data=dname, kind=kind, pinv=False, order="given", big=big, seed=seed))
+                out.append(dict(what="wccn", data=dname, part=0, lm="plus5", order="interleaved", kind=kind, pinv=False, big=big, seed=seed))
     return out
 
 
@@ -128,8 +133,9 @@ def run_case(case):
         idx = idx[::2] + idx[1::2]
     Xi = [rows[i] for i in idx]
     # exact data actually handed to the library (dyadic scale / integer offset keep the values exactly representable)
-    X = np.array(Xi, float) * s + o
-    Xex = [[F(v) * F(s) + F(o) for v in r] for r in Xi]
+    big = case.get("big", 0.0)
+    X = np.array(Xi, float) * s + o + big
+    Xex = [[F(v) * F(s) + F(o) + F(big) for v in r] for r in Xi]
     tags = dict(what=case["what"], kind="dask" if isinstance(case["kind"], list) else case["kind"])
     if case["what"] == "whitening":
         mu = [sum(r[d] for r in Xex) / n for d in range(D)]
@@ -154,7 +160,7 @@ def run_case(case):
         Y = np.asarray(m.transform(X.copy()), float)
         c.close(Y.mean(axis=0), np.zeros(D), "whitening_identity", "mean of the transformed training data", tags, atol=1e-9 * cond)
         c.close(np.cov(Y.T), np.eye(D), "whitening_identity", "covariance of the transformed training data", tags, rtol=1e-9 * cond, atol=1e-9 * cond)
-        return c.result(nontrivial=isinstance(case["kind"], list) or case["order"] != "given", sig="wh|%s|%s|%s|%s" % (case["data"], case["kind"], case["pinv"], case["order"]))
+        return c.result(nontrivial=isinstance(case["kind"], list) or case["order"] != "given", sig="wh|%s|%s|%s|%s|%s" % (case["data"], case["kind"], case["pinv"], case["order"], case.get("big")))
     part = [PARTS[n][case["part"]][i] for i in idx]
     lm = LABELMAPS[case["lm"]]
     y = [lm(k) for k in part]
@@ -189,5 +195,5 @@ def run_case(case):
             Sy += dv.T @ dv
         c.close(Sy / K, np.eye(D), "wccn_identity", "within-class scatter of the transformed training data / number of classes", tags, rtol=1e-9 * cond, atol=1e-9 * cond)
     nontrivial = (K >= 2 and case["lm"] != "identity") or isinstance(case["kind"], list)
-    sig = "wccn|%s|%d|%s|%s|%s|%s" % (case["data"], case["part"], case["lm"], case["order"], case["kind"], case["pinv"])
+    sig = "wccn|%s|%d|%s|%s|%s|%s|%s" % (case["data"], case["part"], case["lm"], case["order"], case["kind"], case["pinv"], case.get("big"))
     return c.result(nontrivial=nontrivial, sig=sig)
